@@ -3,5 +3,5 @@ CONSTANTS
   Workers = {1, 2}
   OpsPerWorker = 1
   MaxHist = 20
-INVARIANTS Emit Linearizable TreeAgree LocksOK
+INVARIANTS Emit Linearizable NoLost TreeAgree LocksOK
 CHECK_DEADLOCK TRUE
